@@ -185,6 +185,8 @@ pub fn profile(id: &str) -> Option<Profile> {
 
 thread_local! {
     static PANIC_INFO: RefCell<Option<String>> = const { RefCell::new(None) };
+    /// what the run was doing (appended to a panic report)
+    pub static PANIC_CTX: RefCell<String> = const { RefCell::new(String::new()) };
     /// set by the concurrent engine when the current run contained a discard
     /// racing with a write to the same guest cluster (known finding KF02)
     pub static KF02_TAINT: std::cell::Cell<bool> = const { std::cell::Cell::new(false) };
@@ -203,7 +205,9 @@ pub fn install_panic_hook() {
         } else {
             "?".into()
         };
-        PANIC_INFO.with(|p| *p.borrow_mut() = Some(format!("{loc}: {msg}")));
+        let ctx = PANIC_CTX.with(|c| c.borrow().clone());
+        let ctx = if ctx.is_empty() { ctx } else { format!(" [{ctx}]") };
+        PANIC_INFO.with(|p| *p.borrow_mut() = Some(format!("{loc}: {msg}{ctx}")));
     }));
 }
 
